@@ -369,6 +369,11 @@ func TestVerifC09Random(t *testing.T) {
 	})
 }
 
+// A restarted process whose ControllerRevision LIST is slow (real Reconcile/Start, real informers).
+func TestVerifC09RestartRevisionCache(t *testing.T) {
+	vs.Run(t, "C09", func(c *vs.Case) error { return vw.PropC09RestartBeforeRevisionCache(c, c09GateDriver{}) })
+}
+
 func TestVerifC12FixedExhaustive(t *testing.T) {
 	vs.RunExhaustive(t, "C12", 2_000_000, func(c *vs.Case) error { return vw.PropC12(c, compositeFactory, "composite", true) })
 }
